@@ -50,6 +50,7 @@ CONSTANTS
   CondTypes,   \* datatypes enumerated in condition vectors
   RuleKinds,   \* parameter kinds that are also enumerated for a sampler used downstream of a rule
   CondScopes,  \* rule scopes enumerated in condition vectors
+  FieldVals,   \* value classes of the span field that a rule condition / a sampler key field reads
   Faithful     \* TRUE: the deviations the real code is known to have are successors of Eval
 
 VARIABLES v, phase, outcome, why, act
@@ -89,7 +90,7 @@ CompsOf(ep)  == IF ep = "query" THEN {"none"} ELSE Comps
 Away(ep, c, z, h) == (IF c = Native(ep) THEN 0 ELSE 1) + (IF z = "none" THEN 0 ELSE 1) + (IF h = "key" THEN 0 ELSE 1)
 
 Req(e, c, z, s, h) == [kind |-> "req", ep |-> e, ctype |-> c, comp |-> z, shape |-> s, hdr |-> h,
-                       sampler |-> "-", place |-> "-", param |-> "-", val |-> "-", dt |-> "-", valk |-> "-"]
+                       sampler |-> "-", place |-> "-", param |-> "-", val |-> "-", dt |-> "-", valk |-> "-", fv |-> "-"]
 
 \* the endpoint's own base (native content type, no compression, key present) is always part of the space
 RequestsOf(e) == { Req(e, c, z, s, h) : c \in CTypesOf(e) \cup {Native(e)}, z \in CompsOf(e) \cup {"none"},
@@ -144,8 +145,9 @@ ValsOf(k) ==
 
 PlacesOf(s) == IF s \in LeafSamplers THEN {"top", "rule"} ELSE {"top"}
 
-Cfg(s, pl, p, x, d, k) == [kind |-> "cfg", ep |-> "-", ctype |-> "-", comp |-> "-", shape |-> "-", hdr |-> "-",
-                           sampler |-> s, place |-> pl, param |-> p, val |-> x, dt |-> d, valk |-> k]
+CfgF(s, pl, p, x, d, k, f) == [kind |-> "cfg", ep |-> "-", ctype |-> "-", comp |-> "-", shape |-> "-", hdr |-> "-",
+                           sampler |-> s, place |-> pl, param |-> p, val |-> x, dt |-> d, valk |-> k, fv |-> f]
+Cfg(s, pl, p, x, d, k) == CfgF(s, pl, p, x, d, k, "-")
 
 ParamVectors == UNION { { Cfg(s, pl, p, x, "-", "-") : x \in ValsOf(KindOf(p)) } : s \in CfgSamplers, pl \in {"top", "rule"}, p \in UNION { ParamsOf(t) : t \in CfgSamplers } }
 ParamOK(x) == /\ x.param \in ParamsOf(x.sampler)
@@ -161,15 +163,24 @@ AllOps == {"=", "!=", ">", "<", ">=", "<=", "starts-with", "contains", "does-not
            "has-root-span", "matches", "in", "not-in"}
 AllCondTypes == {"absent", "string", "int", "float", "bool"}
 AllCondVals == {"absent", "int", "str", "numstr", "bool", "float", "nan", "null", "list", "intlist", "emptylist", "mixedlist",
-                "badregex", "emptystr"}
+                "badregex", "emptystr", "nestedlist", "map"}
+\* x the value class of the span field the condition reads (accepted configuration class x request
+\* field-value class: the condition's Value may be a list for EVERY operator - validation types it
+\* sliceorscalar - and the field may be an array, a map, nil ... whatever a client put there)
+AllFieldVals == {"fv-str", "fv-emptystr", "fv-int", "fv-hugenum", "fv-float", "fv-nan", "fv-bool", "fv-nil", "fv-array",
+                 "fv-nestedarray", "fv-emptyarray", "fv-map", "fv-absent"}
 CondVectors == IF "RulesBasedSampler" \in CfgSamplers
-               THEN { Cfg("RulesBasedSampler", sc, "Cond", o, d, k) : sc \in CondScopes, o \in CondOps, d \in CondTypes, k \in CondVals }
+               THEN { CfgF("RulesBasedSampler", sc, "Cond", o, d, k, f) : sc \in CondScopes, o \in CondOps, d \in CondTypes, k \in CondVals, f \in FieldVals }
                ELSE {}
+
+\* the same field-value classes under the key fields (plain and root.-prefixed) of the samplers that build a key
+KeyVectors == { CfgF(s, pl, "KeyFieldValue", "-", "-", "-", f) : s \in (CfgSamplers \cap LeafSamplers) \ {"DeterministicSampler"},
+                                                                  pl \in {"top", "rule"}, f \in FieldVals }
 
 \* the sampler choice of an environment itself
 ChoiceVectors == IF CfgSamplers = {} THEN {} ELSE { Cfg("none", "top", "Choice", x, "-", "-") : x \in {"obj-empty", "two"} }
 
-Configs == { x \in ParamVectors : ParamOK(x) } \cup { x \in BaseVectors : BaseOK(x) } \cup CondVectors \cup ChoiceVectors
+Configs == { x \in ParamVectors : ParamOK(x) } \cup { x \in BaseVectors : BaseOK(x) } \cup CondVectors \cup KeyVectors \cup ChoiceVectors
 
 Vectors == Requests \cup Configs
 
@@ -290,6 +301,11 @@ ASSUME Endpoints \subseteq AllEndpoints /\ CTypes \subseteq AllCTypes /\ Comps \
 ASSUME Shapes \subseteq AllShapes /\ Hdrs \subseteq AllHdrs /\ ReqMode \in {"star", "full"}
 ASSUME CondOps \subseteq AllOps /\ CondVals \subseteq AllCondVals /\ CondTypes \subseteq AllCondTypes
 ASSUME CfgSamplers \subseteq LeafSamplers \cup {"RulesBasedSampler"} /\ CondScopes \subseteq {"span", "trace"}
+ASSUME FieldVals \subseteq AllFieldVals
+\* every (operator, datatype, value kind) meets every field-value class
+ASSUME "RulesBasedSampler" \in CfgSamplers =>
+         \A o \in CondOps, d \in CondTypes, k \in CondVals, f \in FieldVals :
+            \E x \in Configs : x.param = "Cond" /\ x.val = o /\ x.dt = d /\ x.valk = k /\ x.fv = f
 \* a deviation is only ever listed for a vector that exists
 ASSUME \A x \in Vectors : \A d \in KnownDevs(x) : d.outcome \in {"crash", "hang"} /\ d.why # ""
 
